@@ -41,7 +41,7 @@ from harness.common.fakeproc import FakeProc
 from harness.common.shrink import ddmin
 
 PROP = "C18"
-DRIVER_MODULES = ["PsutilModel.Model.C18Gen", "PsutilModel.Spec.C18"]
+DRIVER_MODULES = ["PsutilModel.Model.C18Gen", "PsutilModel.Spec.C18", "PsutilModel.Spec.C18Refused"]
 NEEDS_EXT = True
 TRUSTED = [
     "C18 simulated kernel (Lean Model/C18.lean §1 and the independent Python recorders): setpriority clamping, ioprio_check_cap of Linux 6.x (class = bits 13..15 masked with 7, level = bits 0..2, stored as unsigned short), sched_setaffinity = intersection with the cpuset / EINVAL when empty, do_prlimit order of checks; validated on every run against the live kernel (part b), not verified",
@@ -53,6 +53,7 @@ TRUSTED = [
     "C18 vanished process: in the simulated part the Process object is made while /proc/<pid> exists, then the directory is removed and the recorders answer ESRCH; zombie: /proc/<pid>/stat shows state Z (simulated) / a real exited, unreaped child (live); a zombie's I/O context is gone, so its I/O priority is only read in the live part",
     "C18 who is calling: `who = 0` / os.nice / resource.getrlimit / resource.setrlimit act on the calling process (setrlimit(2) is prlimit64(0, ...)); after fork() the child's os.getpid() differs from every pid the program remembered before; in the simulated part os.getpid() is answered by the harness for the modules of the snapshot package that reach it through their global `os` (a module that bound `getpid` by `from os import getpid` would see the real pid), the import-time pid is the harness process's; in the live part (live-fork) a fresh interpreter imports the snapshot and forks, the harness reads /proc-independent kernel state (getpriority, ioprio_get, sched_getaffinity, prlimit) of parent, child and a third process after every call",
     "C18 /proc/<pid>/status: `Cpus_allowed_list` is the task's current mask printed as a range list (%*pbl); the harness renderer is checked against the live kernel on every run",
+    "C18 refused get forms: prlimit(2) on a process of another user without CAP_SYS_RESOURCE answers EPERM for the get as for the set (check_prlimit_permission), the other three get forms are never refused by the kernel; /proc/<pid>/limits (fs/proc/base.c proc_pid_limits: header + one row per RLIMIT_* in resource order, `unlimited` for RLIM_INFINITY, world-readable) is written by the harness in the simulated family refused-get and is the real file in live-unpriv (root's child with sixteen different pairs asked by a forked uid-65534 caller)",
 ]
 MANIFEST = {
     "level_text": "Machine-checked Lean 4 proofs over a layered model: simulated kernel (rules + the EPERM/EACCES permission tests of setpriority(2), ioprio_set(2), sched_setaffinity(2), prlimit(2); sched_getaffinity(2) refusing a mask shorter than nr_cpu_ids), native layer (translator's IOPRIO_CLASS_SHIFT; errno protocol of the three getters; the return-value tests of the three setters; the sizing loop of the affinity getter), _pslinux.Process under wrap_exceptions, psutil.Process, and the arguments as Python objects. EVERY property theorem is stated for stepPy - the call as the caller writes it, in an execution context (entry errno, status file cached by oneshot()) - which is what the driver runs against the real code (stepPy cfg, cfg built from the translator's facts); the theorems quantify over every configuration that is Good and has the EINVAL->ValueError fall-through, and cfg_good / cfg_einval_is_valueError are the obligations that the current source is one (the superseded layer `step` of rounds 1-2 is a proof layer in Proofs/C18Step.lean, nothing is claimed about it). C18_refines_py: for every kernel state, existing process, context and request, whatever the specification promises to this caller (expectPy: written from the statement and the man pages; nothing is promised where the caller lacks the privilege) the call yields exactly that result and that kernel (all per-process states + effect log); C18_refines_code_py is the instance for the code as it is, outside the region of the known finding C18-huge-cpu-overflowerror. Named clauses, all for stepPy: C18_py_get_nice/_ionice/_affinity/_rlimit (get returns the kernel's value, every entry errno, nice -1 included, kernels with up to 1024 possible CPU ids through the sizing loop); C18_py_set_then_get_nice/_ionice/_affinity/_rlimit (every valid value the caller is permitted to set, every argument form: success, exactly that attribute replaced, exactly one effect logged, get in any context returns it); C18_py_others_unchanged and C18_exception_no_effect (frame; EVERY raising call leaves the kernel exactly as it was); C18_py_invalid_ValueError_no_effect (level outside 0-7 for EVERY class, level for idle/none, level without class, limits not a pair: ValueError, nothing changes, for every caller); C18_py_empty_selects_all_eligible. CPU lists naming only unusable CPUs: C18_invalid_cpus_Full is the statement for ANY ints; it holds for the code as it is (C18_invalid_cpus, through the obligation cfg_overflow_is_valueError, since /repo 90c3e72 repaired defect C18-huge-cpu-overflowerror); it is refuted for the source as found before that commit (C18_invalid_cpus_counterexample: cpu_affinity([2**63]) raised OverflowError), proved for every list of C longs (C18_py_invalid_cpus_partial) and for any repaired configuration (C18_invalid_cpus_repaired; fact affinityOverflowRaisesValueError); C18_huge_cpu_raises: in the region nothing changes. Privileges: C18_py_nice_refused (foreign process -> EPERM, lowering beyond RLIMIT_NICE -> EACCES: AccessDenied, kernel unchanged) and C18_unchecked_setter_counterexample (with the return-value test dropped from psutil_posix_setpriority the refused call returns None while the kernel keeps the old value; facts setpriorityChecksRetval / ioprioSetChecksRetval / affinitySetChecksRetval feed cfg_good). Sizing loop: C18_affinity_get_sizing_loop (200 CPU ids: two EINVAL rounds then the mask; errno test flipped -> OSError(EINVAL); mask never grows -> no return; success read from errno -> stale EINVAL), facts affinityGetInitBits / affinityGetRetryTest / affinityGetGrowth / affinityGetErrTest feed cfg_good. Counterexamples for the superseded / seeded shapes: C18_stale_errno_counterexample (three broken errno protocols, seeded C18-1), C18_einval_fallthrough_needed (before aebc260; stale status file inside oneshot()), C18_empty_request_shape_counterexamples (empty list resolved through the status file; range(len(per_cpu_times())) with an offline CPU / virtualised /proc/stat, seeded C18-2), C18_empty_selects_all_eligible_with_holes. Arguments as Python objects: C18_arg_form_irrelevant, C18_same_values_same_effect, C18_cpu_iterator; characterisations outside the statement: C18_empty_iterator_is_refused, C18_limits_iterator_TypeError; C18_gone_process, C18_rlimit_pid0_refused, C18_pid0_is_the_caller. Who is calling (round 5, seeded C18-5): stepPyW c rt og (Model/C18Who.lean) is stepPy with every system call addressed as the translator's routing facts addr* say (self.pid | the caller when self.pid == os.getpid() evaluated in the call / remembered on the object / remembered at import | always the caller), made by process k.self of a program whose module was imported by og.importPid and whose object was made by og.createPid; it is what the driver runs (stepPyW cfg routing). cfg_routing_direct is the obligation that every form hands self.pid to every process primitive it calls; C18_any_caller_refines / _code: the refinement for EVERY caller and EVERY fork history; C18_set_reaches_exactly_that_process: no process other than the target - in particular not the caller, not the importing process - changes, and a promised rlimit set shows in the target's kernel state; C18_remembered_pid_shortcut_counterexample: forked child 9 of importer 7 sets its parent's RLIMIT_NOFILE through a short cut keyed on the import-time pid -> the child's limits change, the parent's do not (and the relatives: pid remembered on the object, unconditional caller primitive), invisible in the importing process; C18_caller_shortcut_sound: a short cut keyed on os.getpid() evaluated in the call (or on a remembered pid while no fork lies in between) is sound. Tied to the code by 38 translator facts (total extractors, extracted independently) feeding cfg_good, by an exhaustive differential run against a simulated kernel over a fake procfs in randomised call modes, and by live runs through the freshly built extension: a spawned child as root (state read back from the OS after every call), a real zombie, a /proc/stat with a missing cpuN line, a forked copy of the harness that drops to an unprivileged uid and calls on itself and on root's child (EPERM/EACCES must reach the caller; a set form that returns must show its value in the kernel), and a fresh interpreter under an LD_PRELOAD shim whose sched_getaffinity refuses masks shorter than a pretended nr_cpu_ids of 64..1024 (the growth branch of the sizing loop runs 0-4 rounds).",
@@ -66,6 +67,7 @@ ASSUMPTIONS = [
     "possible CPU ids are 0..ncpu-1 with ncpu <= 1024 (CPU_SETSIZE of the fixed cpu_set_t in proc.c); which of them are online / in the cpuset is arbitrary; /proc/stat has at most ncpu cpuN lines (one per online CPU, or fewer when virtualised)",
     "arguments are int-like scalars (int, IntEnum member, bool) and list / tuple / set / range / iterator containers of ints; floats, strings, numpy arrays, a bare int where a sequence is expected are not modelled",
     "who is calling: one calling thread; the pids a program can have remembered are the importing process's and the object creator's (Origin); pid namespaces (a pid that means different processes to caller and target) and a pid remembered at other moments (first call, a cache filled before a fork) are not modelled - the behavioural families still make every call from a process whose os.getpid() differs from the import-time one",
+    "a get form the kernel refuses: the admissible results are the kernel's own value for that resource of that process or AccessDenied (Spec/C18Refused.lean); the alternative sources modelled are the rows of /proc/<pid>/limits (Model/C18Alt.lean) - an implementation answering from any other source is covered by the behavioural families (every RLIMIT_* x different pairs per resource and per process) but has no model counterpart",
     "the kernel implements prlimit(2) (Linux >= 2.6.36): the ENOSYS branch of _pslinux.Process.rlimit (zombie disambiguation) is never entered by the simulated kernel",
 ]
 
@@ -183,6 +185,45 @@ def _rlimit_facts(tree):
                 c = extract.const(n.test.comparators[0])
                 pair = c if isinstance(c, int) and c >= 0 else 0
     return {"pid0": pid0, "pair": pair}
+
+
+def _own_nodes(fn):
+    """Nodes of the function body, nested function / lambda / class bodies left out."""
+    stack = list(fn.body)
+    while stack:
+        n = stack.pop()
+        yield n
+        for c in ast.iter_child_nodes(n):
+            if not isinstance(c, (ast.FunctionDef, ast.AsyncFunctionDef, ast.Lambda, ast.ClassDef)):
+                stack.append(c)
+
+
+def _rlimit_other_sources(linux_tree, init_tree):
+    """Seeded round 5 (C18-7). Number of places where `rlimit` takes an ANSWER from anything but the system call:
+    value-returning statements of `_pslinux.Process.rlimit` other than `return resource.prlimit(self.pid, <2nd parameter>)`,
+    and of the front-end `Process.rlimit` other than `return self._proc.rlimit(<its two parameters>)`. 0 = the get form
+    answers with what prlimit(2) said, or raises."""
+    n_other = 0
+    fn = _methods(linux_tree, "Process")["rlimit"]
+    par = [a.arg for a in fn.args.args]
+    for n in _own_nodes(fn):
+        if isinstance(n, (ast.Return, ast.Yield, ast.YieldFrom)) and n.value is not None \
+                and not (isinstance(n.value, ast.Constant) and n.value.value is None):
+            v = n.value
+            ok = isinstance(n, ast.Return) and isinstance(v, ast.Call) and extract.dotted(v.func) == "resource.prlimit" \
+                and not v.keywords and len(v.args) == 2 and extract.dotted(v.args[0]) == "self.pid" \
+                and isinstance(v.args[1], ast.Name) and len(par) >= 2 and v.args[1].id == par[1]
+            n_other += 0 if ok else 1
+    fe = _methods(init_tree, "Process")["rlimit"]
+    fpar = [a.arg for a in fe.args.args]
+    for n in _own_nodes(fe):
+        if isinstance(n, (ast.Return, ast.Yield, ast.YieldFrom)) and n.value is not None \
+                and not (isinstance(n.value, ast.Constant) and n.value.value is None):
+            v = n.value
+            ok = isinstance(n, ast.Return) and isinstance(v, ast.Call) and extract.dotted(v.func) == "self._proc.rlimit" \
+                and not v.keywords and [extract.dotted(a) for a in v.args] == fpar[1:3]
+            n_other += 0 if ok else 1
+    return n_other
 
 
 def _front_ionice(tree):
@@ -789,6 +830,11 @@ def facts(snap, F):
               "(mul, add): the next mask has `ncpus * mul + add` CPUs; (2, 0) = doubling, (1, 0) = the mask never grows")
     F.try_add("affinitySetCpuBits", "Nat", lambda: extract.lean_nat(_cpu_num_bits(procc())),
               "psutil_proc_cpu_affinity_set: width in bits of the signed C integer that holds a CPU number between PyLong_AsLong(item) and CPU_SET (declared type of the variable, casts on the way); 64 = a C long keeps every number PyLong_AsLong delivers, anything narrower wraps a number >= 2^(bits-1) onto another one before the -1 test and CPU_SET see it")
+    F.try_add("rlimitGetOtherSources", "Nat", lambda: extract.lean_nat(_rlimit_other_sources(linux(), init())),
+              "number of statements of _pslinux.Process.rlimit / the front-end Process.rlimit that hand back a value which is not "
+              "the result of resource.prlimit(self.pid, resource_) (resp. of self._proc.rlimit(resource, limits)): 0 = the get form "
+              "answers with what prlimit(2) reported or raises; anything else = an answer taken from another source "
+              "(/proc/<pid>/limits, a cache, a default …)")
     rt = lambda: get("rt", lambda: _routing(linux(), init()))  # noqa: E731
     for name, group, kind in _ROUTE_FACTS:
         F.try_add(name, "Nat", (lambda g=group, k=kind: extract.lean_nat(_route_code(rt(), g, k))),
@@ -851,6 +897,8 @@ class Sim:
         self.online = list(world.get("online", range(world["ncpu"])))
         self.nr_open = world["nr_open"]
         self.cap = world["cap"]
+        # processes of another user: prlimit(2) on them (get and set alike) needs CAP_SYS_RESOURCE (prlimit(2), EPERM)
+        self.foreign = {p["pid"] for p in world["procs"] if p.get("foreign")}
         gone = set(world.get("gone_pids", ()))          # processes that have vanished: the kernel answers ESRCH
         self.order = [p["pid"] for p in world["procs"] if p["pid"] not in gone]
         self.procs = {p["pid"]: {"nice": p["nice"], "ioprio": p["ioprio"], "affinity": list(p["affinity"]),
@@ -935,7 +983,9 @@ class Sim:
         if res < 0 or res >= 16:
             raise ValueError("invalid resource specified")
         if limits is None:
-            _, st = self._task(pid)
+            p, st = self._task(pid)
+            if p in self.foreign and not self.cap:
+                raise _oserr(PermissionError, errno.EPERM)
             s, h = st["rlimits"][res]
             return (s - U64 if s >= 2**63 else s, h - U64 if h >= 2**63 else h)
         t = tuple(limits)
@@ -943,6 +993,8 @@ class Sim:
             raise ValueError("expected a tuple of 2 integers")
         s, h = _c_long(t[0]) % U64, _c_long(t[1]) % U64
         p, st = self._task(pid)
+        if p in self.foreign and not self.cap:
+            raise _oserr(PermissionError, errno.EPERM)
         old = st["rlimits"][res]
         if s > h:
             raise ValueError("current limit exceeds maximum limit")
@@ -1311,6 +1363,16 @@ class SimImpl:
             lines.append(l)
         self.fp.write("%d/status" % pid, b"\n".join(lines))
 
+    def _write_limits(self, pid):
+        """/proc/<pid>/limits as fs/proc/base.c:proc_pid_limits prints it: world-readable, one row per resource, showing
+        what the kernel holds — the other source a get form could answer from when prlimit(2) is refused."""
+        rows = [b"%-25s %-20s %-20s %-10s\n" % (b"Limit", b"Soft Limit", b"Hard Limit", b"Units")]
+        rl = self.sim.procs[pid]["rlimits"]
+        for r, (name, unit) in enumerate(PROC_LIMITS_ROWS):
+            cells = [b"unlimited" if v == INF else b"%d" % v for v in rl[r]]
+            rows.append(b"%-25s %-20s %-20s %-10s\n" % (name, cells[0], cells[1], unit))
+        self.fp.write("%d/limits" % pid, b"".join(rows))
+
     def begin(self, world):
         self.sim = Sim(world, on_affinity=self._write_status, native_range=self.native_range)
         ids = tuple(stat_ids(world))
@@ -1328,11 +1390,16 @@ class SimImpl:
             if not os.path.exists(path) or open(path, "rb").read() != want:
                 self.fp.write("%d/stat" % pid, want)
             self._write_status(pid)
+            if world.get("limits_file"):
+                self._write_limits(pid)
+            elif os.path.exists(self.fp.path("%d/limits" % pid)):
+                self.fp.remove("%d/limits" % pid)
         # PID 0 exists in this procfs only so that Process(0) can be built; it mirrors the caller
         if not os.path.exists(self.fp.path("0/stat")):
             self.fp.write("0/stat", b"0 (psv-c18)" + self.stat_tail)
             self.fp.write("0/status", b"\n".join(self.status_lines))
         self.end_block()
+        self.limits_file = bool(world.get("limits_file"))
         self.objs = {}
         self.create_self = world.get("create_self", world["self"])
         self.getpid_value = self.create_self
@@ -1378,8 +1445,20 @@ class SimImpl:
             if isinstance(e, (KeyboardInterrupt, SystemExit)):
                 raise
             out = canon_exc(self.ps, e)
+        if self.sim.log and getattr(self, "limits_file", False):
+            for e in self.sim.log:
+                if e[0] == "rlimit" and e[1] in self.sim.procs:
+                    self._write_limits(e[1])
         return {"out": out, "procs": self.sim.dump(), "log": list(self.sim.log)}
 
+
+# resource number -> (label, unit) of its row in /proc/<pid>/limits (fs/proc/base.c `lnames`, indexed by RLIMIT_*)
+PROC_LIMITS_ROWS = [
+    (b"Max cpu time", b"seconds"), (b"Max file size", b"bytes"), (b"Max data size", b"bytes"), (b"Max stack size", b"bytes"),
+    (b"Max core file size", b"bytes"), (b"Max resident set", b"bytes"), (b"Max processes", b"processes"),
+    (b"Max open files", b"files"), (b"Max locked memory", b"bytes"), (b"Max address space", b"bytes"),
+    (b"Max file locks", b"locks"), (b"Max pending signals", b"signals"), (b"Max msgqueue size", b"bytes"),
+    (b"Max nice priority", b""), (b"Max realtime priority", b""), (b"Max realtime timeout", b"us")]
 
 # ------------------------------------------------------------------------------ worlds and requests
 
@@ -1708,6 +1787,65 @@ def caller_histories(rng, n_random):
         yield h, False
 
 
+def refused_world(rng, rlimits, foreign=(T_PID,), **kw):
+    """A caller without CAP_SYS_RESOURCE; the processes in `foreign` belong to another user: prlimit(2) on them is refused
+    (EPERM) while /proc/<pid>/limits of every process is there for everybody and shows what the kernel holds."""
+    w = mk_world(cap=False, rlimits=rlimits, **kw)
+    for p in w["procs"]:
+        if p["pid"] in foreign:
+            p["foreign"] = True
+    w["limits_file"] = True
+    return w
+
+
+def refused_histories(rng, n_random):
+    """Seeded round 5 (C18-7): get forms whose primary system call is refused while another source is readable. Yields
+    (history, enumerated?)."""
+    # the kernel's defaults for a fresh process (RTPRIO 0/0 next to RTTIME unlimited, NICE 0/0, CORE 0/unlimited, …), one
+    # table with sixteen different pairs, one with every soft limit equal to its hard limit, one with raw values >= 2^63
+    defaults = [[INF, INF], [INF, INF], [INF, INF], [8388608, INF], [0, INF], [INF, INF], [63304, 63304], [1024, 524288],
+                [8388608, 8388608], [INF, INF], [INF, INF], [63304, 63304], [819200, 819200], [0, 0], [0, 0], [INF, INF]]
+    tables = [DEFAULT_RL, defaults, [[300 + 7 * r, 300 + 7 * r] for r in range(16)],
+              [[2**63 - 1 - r, INF if r % 2 else 2**63 - 1] for r in range(16)]]
+    k = 0
+    for ti, rl in enumerate(tables):
+        for res in range(16):
+            for target, foreign in ((T_PID, (T_PID,)), (T_PID, (T_PID, S_PID)), (S_PID, (T_PID,))):
+                w = refused_world(rng, rl, foreign=foreign)
+                ops = [op(target, R_rl(res))]
+                if ti == 0:
+                    # a refused set in between (nothing may change), then the same question again; then another resource
+                    ops += [op(target, R_rl(res, (1, 2))), op(target, R_rl(res)), op(target, R_rl((res + 1) % 16))]
+                ops += [op(SELF_PID, R_rl(res))]
+                ops = [dict(o, mode=MODES[(k + j) % len(MODES)]) for j, o in enumerate(ops)]
+                k += 1
+                yield {"world": w, "ops": ops, "mode": "sim", "tag": "refused-get"}, 1
+    for pid in (T_PID, S_PID):
+        # every get form of a foreign process in one history: three are answered by the kernel, rlimit is refused
+        w = refused_world(rng, DEFAULT_RL, foreign=(T_PID, S_PID))
+        ops = [op(pid, R_nice()), op(pid, R_ionice()), op(pid, R_aff())] + [op(pid, R_rl(r)) for r in range(16)] + \
+            [op(pid, R_rl(-1)), op(pid, R_rl(16)), op(pid, F(R_rl(15), res_form="enum"))]
+        yield with_modes(rng, {"world": w, "ops": ops, "mode": "sim", "tag": "refused-get"}, p_block=0.0), 1
+    for _ in range(n_random):
+        w0 = gen_world(rng)
+        foreign = [p for p in (T_PID, S_PID, SELF_PID) if rng.random() < (0.7 if p == T_PID else 0.3)]
+        w = refused_world(rng, None, foreign=foreign)
+        w.update({k2: v for k2, v in w0.items() if k2 not in ("cap", "procs")})
+        w["procs"] = [dict(p, **({"foreign": True} if p["pid"] in foreign else {})) for p in w0["procs"]]
+        w["cap"] = rng.random() < 0.15
+        ops = []
+        for _ in range(rng.randrange(2, 7)):
+            pid = rng.choice([T_PID, T_PID, S_PID, SELF_PID])
+            res = rng.choice(list(range(16)) + [14, 15, 13, -1, 16])
+            if rng.random() < 0.8:
+                ops.append(op(pid, R_rl(res)))
+            else:
+                h = rng.choice([INF, rng.randrange(0, 10**6)])
+                ops.append(op(pid, R_rl(res, (rng.randrange(0, min(h, 10**6) + 1), h))))
+                ops.append(op(pid, R_rl(res)))
+        yield with_modes(rng, {"world": w, "ops": ops, "mode": "sim", "tag": "refused-get-random"}, p_block=0.1), 0
+
+
 def gen_world(rng):
     ncpu = rng.choice([1, 2, 3, 4, 6, 8])
     online = stat = None
@@ -1871,6 +2009,17 @@ def judge(ctx, res, hist, i, impl, m, live=False):
             if fid is None:
                 return False
             # inside the region of a known finding the model predicted exactly this outcome and state: the history goes on
+    elif m.get("honest") is not None:
+        # a get form the kernel refuses to this caller: the statement still says what an ANSWER must be (what the kernel
+        # holds for that attribute of that process); the only other admissible outcome is the refusal passed on
+        honest = m["honest"] if not live else [{k: v for k, v in a.items() if k != "log"} for a in m["honest"]]
+        res.count("spec:refused-get(kernel's value or AccessDenied)")
+        res.count("clause:refused-get:%s" % (impl["out"].get("exc") or impl["out"]["kind"]))
+        if impl not in honest:
+            res.disagree("spec", inp, impl, model, {"admissible": honest},
+                         note="op %d: the get form was refused by the kernel and the implementation answered with something "
+                              "that is neither what the kernel holds for that process nor AccessDenied" % i)
+            return False
     else:
         res.count("spec:unconstrained")
     if impl != model:
@@ -1904,7 +2053,7 @@ def rebase_import_pid(h):
 def driver_world(world):
     """The reset line: the kernel does not know the vanished processes."""
     gone = set(world.get("gone_pids", ()))
-    w = {k: v for k, v in world.items() if k not in ("gone_pids", "zombie_pids", "create_self", "import_pid")}
+    w = {k: v for k, v in world.items() if k not in ("gone_pids", "zombie_pids", "create_self", "import_pid", "limits_file")}
     w["procs"] = [p for p in world["procs"] if p["pid"] not in gone]
     w["op"] = "reset"
     return w
@@ -2459,6 +2608,16 @@ def live_unpriv(ctx, res, live, env, T):
             res.notes.append("live-unpriv skipped: the forked child could not drop privileges (%r)" % hello)
             return 0
         C, E = child, env["eligible"]
+        # seeded round 5 (C18-7): a second process of root's whose sixteen limits all differ (set here, by root, with the
+        # resource module), asked for every RLIMIT_* by the unprivileged caller: prlimit(2) answers EPERM while
+        # /proc/<pid>/limits is readable by everybody
+        T2 = live.spawn()
+        for r in range(16):
+            want = {7: (600, 1200), 13: (3, 7), 14: (5, 9)}.get(r, (2**30 + 4096 * (r + 1), 2**31 + 4096 * (r + 1)))
+            try:
+                real_resource.prlimit(T2, r, want)
+            except (OSError, ValueError):
+                pass
 
         def state():
             wr.write(json.dumps({"rlimits": True}) + "\n")
@@ -2466,7 +2625,7 @@ def live_unpriv(ctx, res, live, env, T):
             own = {"pid": C, "nice": os.getpriority(os.PRIO_PROCESS, C), "ioprio": raw_ioprio_get(C),
                    "affinity": sorted(os.sched_getaffinity(C)), "cpuset": list(E), "rlimits": json.loads(rd.readline()),
                    "foreign": False}
-            return [own, dict(live.os_state(T, E), foreign=True)]
+            return [own, dict(live.os_state(T, E), foreign=True), dict(live.os_state(T2, E), foreign=True)]
         st0 = state()
         nC, nT = st0[0]["nice"], st0[1]["nice"]
         ops = [
@@ -2485,6 +2644,9 @@ def live_unpriv(ctx, res, live, env, T):
             op(T, R_aff(E[:1])), op(T, R_aff()), op(T, R_aff([])), op(T, R_aff()), op(T, R_aff([env["ncpu"]])), op(T, R_aff([-1])),
             op(T, F(R_aff(E[-1:]), cpus_form="tuple")), op(T, R_aff()),
             op(T, R_rl(7, (16, 32))), op(T, R_rl(7, (1,))), op(T, R_rl(16)),
+        ] + [op(T2, R_rl(r)) for r in range(16)] + [op(T, R_rl(r)) for r in (13, 14, 15, 4)] + [
+            op(T2, R_rl(15, (1, 2))), op(T2, R_rl(15)), op(T2, F(R_rl(14), res_form="enum")), op(T2, R_nice()), op(T2, R_ionice()),
+            op(T2, R_aff()),
         ]
         modes = ["plain", "oneshot", "oneshot-warm", "second"]
         ops = [dict(o, mode=ctx.rng.choice(modes)) for o in ops]
@@ -2512,7 +2674,7 @@ def live_unpriv(ctx, res, live, env, T):
                 res.count("live:unpriv:AccessDenied:%s:%s" % (o["req"]["kind"], "own-process" if o["pid"] == C else "foreign-process"))
             res.case(("live-unpriv", i, json.dumps(o, sort_keys=True)), nontrivial=not is_get(o["req"]))
             done += 1
-            shown = set_shows_value(o["req"], im["procs"][0 if o["pid"] == C else 1]) if out == {"kind": "ok", "value": None} \
+            shown = set_shows_value(o["req"], im["procs"][{C: 0, T: 1, T2: 2}[o["pid"]]]) if out == {"kind": "ok", "value": None} \
                 and not is_get(o["req"]) else None
             if shown is False:
                 res.disagree("spec", {"world": world, "ops": ops[:i + 1], "mode": "live", "source": "live-unpriv"}, im,
@@ -2961,6 +3123,10 @@ def correspond(ctx, res):
         for h, exh in caller_histories(ctx.rng, ctx.n(400, 8000)):
             hists.append(h)
             n_caller += exh
+        n_refused = 0
+        for h, exh in refused_histories(ctx.rng, ctx.n(250, 5000)):
+            hists.append(h)
+            n_refused += exh
         for _ in range(ctx.n(1500, 40000)):
             w, o = gen_history(ctx.rng)
             hists.append(with_modes(ctx.rng, {"world": w, "ops": o, "mode": "sim", "tag": "random"}, p_block=0.25))
@@ -2982,8 +3148,11 @@ def correspond(ctx, res):
                           "the roles importing process (pid remembered at import) / creator of the Process object / caller to "
                           "the three processes of the world (4 x 3 x 3, incl. 'the importer is none of them') x 8 request groups "
                           "(each set form, cpu_affinity([]), the get forms, the listed invalid requests) on the target, followed "
-                          "by the get forms on the target, the caller and the third process"
-                          % (n_ex, n_modes, n_ext, n_caller))
+                          "by the get forms on the target, the caller and the third process. Seeded round 5 (C18-7, a refused get form with "
+                          "another readable source): %d histories enumerate the 16 RLIMIT_* x 4 limit tables (sixteen different "
+                          "pairs, the kernel's defaults, soft = hard, raw values >= 2^63) x 3 ownership patterns for a caller "
+                          "without CAP_SYS_RESOURCE, /proc/<pid>/limits readable, + every get form of a foreign process"
+                          % (n_ex, n_modes, n_ext, n_caller, n_refused))
         res.extra["driver_lines"] = total
     finally:
         impl.close()
@@ -3006,6 +3175,8 @@ def _violates(ctx, inp):
         for i, (im, m) in enumerate(rows_all[0]):
             if m["model"]["out"].get("kind") == "undefined-c":
                 return None
+            if m["spec"] is None and m.get("honest") is not None and im not in m["honest"]:
+                return (i, im, m)
             want = m["spec"] if m["spec"] is not None else m["model"]
             if im != want:
                 return (i, im, m)
@@ -3023,7 +3194,8 @@ def shrink(ctx, d):
     if r is None:
         return d
     i, im, m = r
-    return dict(d, input=dict(inp, ops=small[:i + 1], source="shrunk"), impl=im, model=m["model"], spec=m["spec"])
+    spec = m["spec"] if m["spec"] is not None or m.get("honest") is None else {"admissible": m["honest"]}
+    return dict(d, input=dict(inp, ops=small[:i + 1], source="shrunk"), impl=im, model=m["model"], spec=spec)
 
 
 def _replay_live_ops(ctx, inp, r2):
